@@ -214,6 +214,8 @@ def run(sim: Sim) -> None:
                 except Exception:
                     accepted = False
                 sim.probe("call_with_unusable_value")
+                if not accepted:
+                    sim.fault("operation_failed_half_way")
                 if accepted:
                     return  # some numpy conversion accepted it: not a modelled operation
                 if table(h.g) != before_bad:
